@@ -1,6 +1,8 @@
 import Cvise.Proofs.DriverStats
 import Cvise.Proofs.DriverWorked
 import Cvise.Proofs.DriverExecuted
+import Cvise.Proofs.Timing
+import Cvise.Gen.World
 /-!
 # C20 — the pass statistics report what happened
 
@@ -46,6 +48,20 @@ theorem executed_eq_started (cfg : Cfg) (W : World C) (dn : Sched) (orderOf : Li
     startedOf p (LRes.st' (reduce cfg W dn orderOf fuel first main last x)).side.log :=
   reduce_executed_eq cfg W dn orderOf fuel first main last x h p
 
+/-- **the time attributed to passes is non-negative and does not exceed the elapsed time**: for clock readings taken in
+    order from one monotonic clock (`Tm.Ordered`: reduction start ≤ pass start ≤ pass stop ≤ next pass start ≤ … ≤ reduction
+    end; pass runs do not overlap), every pass interval is ≥ 0 and their sum is ≤ the elapsed time -/
+theorem pass_time_bounds (ivs : List (Int × Int)) (t0 t1 : Int) (h : Tm.Ordered t0 ivs t1) :
+    (∀ iv ∈ ivs, 0 ≤ iv.2 - iv.1) ∧ 0 ≤ Tm.attributed ivs ∧ Tm.attributed ivs ≤ t1 - t0 :=
+  let b := Tm.attributed_bounds ivs t0 t1 h
+  ⟨b.2.2, b.1, b.2.1⟩
+
+/-- the hypothesis is about the clock the code reads: both the pass timer and the elapsed time use `time.monotonic`
+    (regenerated); with a wall clock a step between `start` and `stop` breaks both bounds (`wall_clock_counterexample`) -/
+theorem shipped_clock : Gen.statsClockMonotonic = true := by decide
+theorem wall_clock_counterexample : Tm.stepped 10 11 (-100) < 0 ∧ Tm.stepped 10 11 100 > 20 - 0 := by decide
+
+example : Tm.Ordered 0 [(1, 4), (4, 9)] 12 := by simp [Tm.Ordered]
 example : EInv ({ disk := [0] } : St Nat) := fun _ => rfl
 example : StatOK ({ disk := [0] } : St Nat) := fun _ => Nat.le_refl _
 example : WInv ({ disk := [0] } : St Nat) := fun _ => rfl
